@@ -19,7 +19,9 @@ RULE = ('Histories of 5-25 steps over a growing family of at most 6 database obj
         'of the source or of the derivative.')
 ASSUMPTIONS = ['the text round trip is the identity on the values generated (multiples of 1/8 within the coordinate columns, short '
                'names): what it does in general is C01/C02; here only snapshot time and independence are at stake']
-TRUSTED = ['Driver.B.roundtripRepresentable (model number reset, added columns dropped) stands for parse(format(.)) on representable tables']
+TRUSTED = ['the Model driver runs the CONCRETE round trip Model.textRoundtrip (translated data2pdb, then the record loop of C01); the '
+           'Spec driver uses its value on representable tables (Driver.B.roundtripRepresentable: model number reset, added columns '
+           'dropped) -- Props.C15.roundtrip_is_readBack relates the two']
 
 MODCOLS = ['name', 'resName', 'chainID', 'resSeq', 'x', 'y', 'z', 'serial', 'element', 'altLoc', 'iCode']
 PDBPOOL = dict(POOL)
